@@ -122,6 +122,9 @@ def from_sortable(numtype, intsize, signed, x):
 def float_to_sortable_long(x, signed):
     x = _qunpack(_dpack(x))[0]
     if x < 0:
+        if not signed:
+            raise ValueError("Can't store a negative float in an unsigned "
+                             "field")
         x ^= 0x7fffffffffffffff
     if signed:
         x += 1 << 63
